@@ -596,6 +596,22 @@ async def exec_step(env, ctx, step):
                 '%s: %s (step %s, %r) completed within the activation in which it was issued, '
                 'at %r' % (ctx.name, op, sid, {k: v for k, v in step.items()
                                                if k not in ('op', 'id', 'body')}, env.sess.now()))
+            if state is not None and env.sess.stack[-1] is state and len(state.by_key) < 3000:
+                # C02: ... and thereby went on ahead of activities that had been made runnable
+                # for this time before it
+                loop = state.loop
+                for rec in state.by_due.get(loop.time, ()):
+                    if rec[2] is None or not rec[0] or rec[0] > mark or rec[2] is loop.activity \
+                            or rec[1] != loop.time:
+                        continue
+                    if rec[3] is not None and getattr(rec[3], '_revoked', False):
+                        continue
+                    env.sess.violation(
+                        'c02:went-on-ahead-of-runnable:' + op,
+                        '%s: %s (step %s) completed at %r without giving %s, which had been made '
+                        'runnable for that time before, its turn' % (
+                            ctx.name, op, sid, loop.time, env.sess.label_of(rec[2])))
+                    break
         elif state is not None and env.sess.stack[-1] is state and len(state.by_key) < 3000:
             # ... and after everything that was runnable when it was issued has had its turn:
             # whatever was queued for this time before the call comes first
